@@ -779,7 +779,9 @@ void UIVectorSet(uivector* d, size_t val)
 
 int intcmp(const void *v1, const void *v2)
 {
-  return (*(int *)v1 - *(int *)v2);
+  size_t a = *(size_t *)v1;
+  size_t b = *(size_t *)v2;
+  return (a > b) - (a < b);
 }
 
 void SortUIVector(uivector* d)
